@@ -1,4 +1,11 @@
+(* REGENERATED from src/mxlpy/mca.py by harness/c18.py; do not edit.  An unrecognised statement
+   yields SUnknown / QuotUnknown, which breaks C18_facts_pinned. *)
 From Coq Require Import QArith List.
 From Mca Require Import Mca.
 Import ListNotations.
-Definition gen_mca_facts : mca_facts := mkFacts [] [] [] [] QuotUnknown.
+Definition gen_mca_facts : mca_facts := mkFacts
+  [(1 # 10000)%Q; (1 # 10000)%Q; (1 # 10000)%Q; (1 # 10000)%Q]
+  [SObserve; SObserve; SObserveIfNorm]
+  [SReadOld; (SSetPar Up); SObserve; (SSetPar Down); SObserve; (SSetPar Back); SObserveIfNorm]
+  [SReadOld; SApplyY0; (SSetPar Up); SObserve; (SSetPar Down); SObserve; (SView 0); (SView 1); (SView 0); (SView 1); (SSetPar Back); SObserveIfNorm; (SViewIfNorm 2); (SViewIfNorm 2)]
+  QuotCentralRel.
